@@ -447,6 +447,42 @@ def gen_C10(w, tier):
             return None
         sc.pred = pred
         out.append(sc)
+    # malformed / unusual state blobs: the model's parser and the real json/binascii must agree on what is refused
+    # (separate stream, so that the mostly-valid stream above is not drowned in error handling)
+    for (sc0, ps, side, pw, ids, x, a, m, s_) in cases[:: (3 if not big else 1)]:
+        data = payload(s_)
+        if data is None:
+            continue
+        d = json.loads(data.decode("ascii"))
+        sc = w.scenario("C10/malformed/%s" % sc0.name, ("malformed",))
+        blobs = []
+        for k in list(d):
+            e = dict(d); del e[k]; blobs.append(("drop-" + k, json.dumps(e).encode()))
+            e = dict(d); e[k] = ""; blobs.append(("empty-" + k, json.dumps(e).encode()))
+            e = dict(d); e[k] = d[k] + "0"; blobs.append(("odd-" + k, json.dumps(e).encode()))
+            e = dict(d); e[k] = "zz" + d[k][2:]; blobs.append(("nonhex-" + k, json.dumps(e).encode()))
+        e = dict(d); e["extra"] = "00"; blobs.append(("extra-key", json.dumps(e).encode()))
+        blobs.append(("dup-key-last-wins", (data[:-1] + b', "password": "' + d["password"].encode() + b'"}')))
+        blobs.append(("dup-key-other", (data[:-1] + b', "password": "00"}')))
+        for cut in sorted(set([0, 1, 2, len(data) // 2, len(data) - 1] + [r.randrange(len(data)) for _ in range(4)])):
+            blobs.append(("truncated", data[:cut]))
+        blobs += [("single-quotes", data.replace(b'"', b"'")), ("non-ascii", data[:5] + b"\xc3\xa9" + data[5:]),
+                  ("trailing-garbage", data + b"x"), ("trailing-ws", data + b" \n"), ("leading-ws", b"\t " + data),
+                  ("empty", b""), ("not-object", b'"abc"'), ("nul", data[:3] + b"\x00" + data[3:])]
+        rec = []
+        for (nm, blob) in blobs:
+            n_ = w.sid()
+            o = sc.do("restore %d %s %d %s" % (n_, side, ps.pid, hx(blob)))
+            rec.append((nm, o))
+        sc.meta["rec"] = rec
+
+        def pred_m(io, sc):
+            for (nm, o) in sc.meta["rec"]:
+                if (nm.startswith(("drop-", "odd-", "nonhex-", "single", "non-ascii", "trailing-garbage", "not-object", "nul")) or nm == "empty") and o == "ok":
+                    return "from_serialized accepted a malformed blob (%s)" % nm
+            return None
+        sc.pred = pred_m
+        out.append(sc)
     return out
 
 
